@@ -398,8 +398,9 @@ def run(ctx, only=None):
         fails, stats = oracle(ctx, cases, impl)
         known = [f for f in fails if f.klass]
         new = [f for f in fails if not f.klass]
-        if new and only is None:
-            new[0] = shrink(ctx, new[0])
+        n_corpus = len(corpus())
+        if new and only is None and new[0].case not in cases[:n_corpus]:
+            new[0] = shrink(ctx, new[0])       # hand-picked corpus cases are reported as they are
         fails = new + known
     if only is not None:
         for i, c in enumerate(cases):
